@@ -257,9 +257,11 @@ func runTargets(t *simrt.Tape, keep bool) simrt.Outcome {
 				needBlank = false
 			}
 			if i < len(specs)-1 && (needBlank || t.Prob(1, 2)) {
-				file.WriteString("\n")
+				// (a line of blanks and tabs only is a blank line too)
+				blank := func() string { return []string{"", "", "", "", " ", "\t", "  \t "}[t.Choose(7)] + "\n" }
+				file.WriteString(blank())
 				if t.Prob(1, 8) {
-					file.WriteString("\n")
+					file.WriteString(blank())
 				}
 			}
 		}
